@@ -397,9 +397,9 @@ pub fn tokens(e: &Expr, mode: Mode, d: Option<&mut Dec>) -> Option<Vec<Tok>> {
 // ------------------------------------------------------------------------------------------
 // layout
 
-const SEPARATORS: [&str; 16] = [
+const SEPARATORS: [&str; 18] = [
     " ", "", " ", "\n", "\t", "  ", "\r\n", " \n ", "\u{a0}", "\u{2003}", "\u{85}", "\u{c}", "// c\n", " // if then (\n\t",
-    "//\r\n", "\r",
+    "//\r\n", "\r", "// c\r", "//\r\r",
 ];
 
 /// Join tokens with single spaces.
